@@ -173,6 +173,33 @@ RecycleLaw == LET SB == BAddAll(NewBuilder, c.adds)
                  /\ \A k \in rk : k \in DOMAIN T.b.raw /\ T.b.raw[k] = SS[k]   \* old numbers are kept
                  /\ LooksOf(T.b.raw) = [pr \in ProbeSet |-> ExpLookup(exp, pr[1], pr[2])]
 
+\* ------------------------------------------------------------------ family snapbase (the copy obtained by applying a delta)
+\* The delta leg of C10 starts from a base snapshot built by its own call sequence: the base has
+\* more, fewer, the same or other UUID types than the target (UUID types appear and disappear,
+\* also all of them). All items carry one integer, so that common keys agree on the length.
+BaseCase(base, a, a2, probes) == [op |-> "snap", adds |-> a, adds2 |-> a2, probe |-> probes, base |-> base,
+                                  copies |-> <<"delta">>]
+BaseAdds2 == << [ty |-> U1, i |-> 1, d |-> <<3>>], [ty |-> U3, i |-> 0, d |-> <<1>>] >>
+InitSnapBaseQuick ==
+  \E b \in BoundedSeq(AddOpt(STq, {0}, {<<7>>}), 2), a \in BoundedSeq(AddOpt(STq, {0}, {<<MIN>>}), 2) :
+    c = BaseCase(b, a, BaseAdds2, ProbesOf(STq \cup {U3}, {0, 1}))
+InitSnapBaseThorough ==
+  \E b \in BoundedSeq(AddOpt(STq, {0, 1}, {<<7>>}), 2), a \in BoundedSeq(AddOpt(STq, {0, 1}, {<<MIN>>}), 3) :
+    c = BaseCase(b, a, BaseAdds2, ProbesOf(STq \cup {U3}, {0, 1}))
+\* C10 "the same holds for snapshots obtained by applying a delta", on the model
+BaseDeltaLaw ==
+  LET A == BAddAll(NewBuilder, c.base).b.raw
+      S == BAddAll(NewBuilder, c.adds).b.raw
+      D == Delta(A, S)
+      pd == ParseDeltaBytes(EncodeAll(DeltaWire(D, OszNone)), OszNone)
+      r == Apply(A, pd.d)
+  IN /\ \A k \in DOMAIN A \cap DOMAIN S : Len(A[k]) = Len(S[k])
+     /\ pd.ok /\ pd.warn = {} /\ r.ok /\ r.warn = {}
+     /\ SameSnap(r.s, S) /\ CheckRegistry(r.s).ok
+     /\ Reg(r.s) = Reg(S) /\ SameSnap(View(r.s), View(S)) /\ Crc(r.s) = Crc(S)
+     /\ LooksOf(r.s) = LooksOf(S)
+     /\ Recycle(r.s) = Recycle(S)
+
 \* ------------------------------------------------------------------ family snaplimit (builder at the limits)
 \* The builder is filled so that r bytes (one filler item) or k items (empty filler items) of room
 \* are left, for every r around the cost of a registry item (24 bytes), an empty item (8) and a
